@@ -255,6 +255,11 @@ theorem pAll_succ (g : Grammar) (inp : Input) (marks : List Nat) (hm : MarksOK g
       simp only [eval]
       have h1 := ih.eval e pos r { st with vers := v :: st.vers } (invP_vers hi _)
       exact ⟨invP_vers h1.1 _, h1.2.1, fun hp => h1.2.2 (by simpa [PR] using hp)⟩
+    | kwGuard w =>
+      simp only [eval]
+      split
+      · exact PSpec.err hi
+      · exact pspec_ok_here hi (by simp [PR])
     | ifDir a b =>
       simp only [eval]
       split
